@@ -469,7 +469,7 @@ func runR86(c *Ctx) {
 		decide := func(cond ssa.Value) (bool, bool) {
 			cv, val := unNot(cond, true)
 			if call, ok := cv.(*ssa.Call); ok {
-				if o := calleeObj(call); o != nil && o.Name() == "isEmptyLine" {
+				if h := call.Call.StaticCallee(); h != nil && h == p.anchorEmptyLine() {
 					return empty == val, true
 				}
 			}
@@ -565,7 +565,7 @@ func runR86(c *Ctx) {
 		}
 	}
 	// isEmptyLine
-	if ef := p.Func("internal/io", "isEmptyLine"); ef == nil || len(ef.Params) != 1 {
+	if ef := p.anchorEmptyLine(); ef == nil || len(ef.Params) != 1 {
 		c.undecided("internal/io.isEmptyLine", "-", "not found")
 	} else {
 		for w := 0; w < 4; w++ {
